@@ -505,3 +505,32 @@ CONTRACTS.append(Contract(
                                                           effect=lambda ex, a: BIN.setdefault("warned", []).append(a.message), verify=False, note="a warning (does not stop compilation)"),
           "SemanticAnalyzer._is_virtual_channel": "inline"},
     dynamic_types=_DYN, properties=("C01", "C14", "C02"), min_obligations=6, no_replay=True))
+
+
+# =================================================================================================
+# SemanticAnalyzer._resolve_for_loop_constant (C16: a range bound given through a name): the value returned is the compile-time
+# value recorded for an int variable of that name (innermost definition); an undefined name, a name that is not an int, or an int
+# without a compile-time value is refused (ValueError, reported by the caller) — never a default such as 0.
+# =================================================================================================
+def _rfl_lookup(ex, a):
+    return ghost(ex.args_ns.self, "symbol", ty.TOpt(ty.TObj("Symbol", only=("Symbol",), ftypes=(
+        ("value_type", ty.TObj("ValueInfo", only=("IntValue", "SignalValue", "BundleValue"), ftypes=(("value", ty.TOpt(ty.Int)),))),))))
+
+
+def _rfl_post(a, res):
+    sym = a.self._fields.get("@symbol")
+    return And(sym is not None and isa(sym.value_type, "IntValue") is True and sym.value_type.value is not None, ops.eq(res, sym.value_type.value) if sym is not None and sym.value_type.value is not None else False)
+
+
+def _rfl_raises(a):
+    sym = a.self._fields.get("@symbol")
+    return sym is None or isa(sym.value_type, "IntValue") is not True or sym.value_type.value is None
+
+
+CONTRACTS.append(Contract(
+    qualname=AN + "_resolve_for_loop_constant", params={"self": _SELF, "name": ty.Str},
+    ensures=[("the recorded compile-time value of the int variable", _rfl_post)],
+    raises={"ValueError": _rfl_raises},
+    uses={"SymbolTable.lookup": Contract(qualname="dsl_compiler/src/semantic/symbol_table.py::SymbolTable.lookup", params={"self": _OPQ, "name": _OPQ}, effect=_rfl_lookup, verify=False,
+                                         note="proved in contracts.c14: innermost definition of the name, None when undefined")},
+    dynamic_types=_DYN, properties=("C16", "C14"), min_obligations=2, no_replay=True))
